@@ -3,6 +3,7 @@ package main
 // Statements, loops, function entry/exit.
 
 import (
+	"os"
 	"fmt"
 	"go/ast"
 	"go/token"
@@ -94,6 +95,8 @@ func (fv *FV) execStmt(st *State, s ast.Stmt, label string) *State {
 				if i < len(vs.Values) {
 					v = fv.evalExpr(st, vs.Values[i])
 					v = fv.asParam(v, obj.Type())
+				} else if isUserByRef(obj.Type()) {
+					v = fv.allocZero(st, obj.Type(), x.Pos()) // a struct held by reference: a fresh zero object
 				} else {
 					v = fv.zero(obj.Type())
 				}
@@ -101,6 +104,7 @@ func (fv *FV) execStmt(st *State, s ast.Stmt, label string) *State {
 				fv.setVar(st, obj, v)
 			}
 		}
+		fv.ghostAfter(st, s)
 		return st
 	case *ast.IfStmt:
 		if x.Init != nil {
@@ -776,6 +780,9 @@ func (fv *FV) numberLoops(body *ast.BlockStmt) {
 			return
 		}
 		text = normSpace(text)
+		if os.Getenv("GOVC_TRACE") == "anchors" {
+			fmt.Fprintf(os.Stderr, "anchor candidate: %q\n", text)
+		}
 		for _, g := range fv.fc.Ghosts {
 			var want string
 			switch {
@@ -825,6 +832,8 @@ func (fv *FV) numberLoops(body *ast.BlockStmt) {
 			case *ast.AssignStmt:
 				note(x)
 			case *ast.IncDecStmt:
+				note(x)
+			case *ast.DeclStmt:
 				note(x)
 			case *ast.IfStmt:
 				noteText("if " + fv.src(x.Cond))
@@ -929,7 +938,7 @@ func (fv *FV) execFor(st *State, x *ast.ForStmt, label string) *State {
 	exit := fv.fork(head, not(cond))
 	lc := &loopCtx{label: label}
 	fv.ctx = append(fv.ctx, lc)
-	fv.ghostAt(body, fmt.Sprintf("loop %d head", ord), x.Pos())
+	fv.ghostAt(body, fmt.Sprintf("loop %d head", ord), x.Body.Lbrace+1)
 	end := fv.execBlock(body, x.Body.List)
 	fv.ctx = fv.ctx[:len(fv.ctx)-1]
 	// every way of reaching the end of an iteration (falling off the body, each `continue`) is checked on its own:
@@ -945,7 +954,7 @@ func (fv *FV) execFor(st *State, x *ast.ForStmt, label string) *State {
 		if x.Post != nil {
 			end = fv.execStmt(end, x.Post, "")
 		}
-		fv.ghostAt(end, fmt.Sprintf("loop %d end", ord), x.Pos())
+		fv.ghostAt(end, fmt.Sprintf("loop %d end", ord), x.Body.Lbrace+1)
 		fv.obligeSat(end, fmt.Sprintf("vacuity.loop%d.%s", ord, phase), "the end of the loop body is reachable under everything assumed on the way")
 		fv.checkInvariants(end, ls, ord, phase, x.Pos(), scopePos)
 		if variant0 != "" {
@@ -1103,7 +1112,7 @@ func (fv *FV) execRange(st *State, x *ast.RangeStmt, label string) *State {
 	}
 	lc := &loopCtx{label: label}
 	fv.ctx = append(fv.ctx, lc)
-	fv.ghostAt(body, fmt.Sprintf("loop %d head", ord), x.Pos())
+	fv.ghostAt(body, fmt.Sprintf("loop %d head", ord), x.Body.Lbrace+1)
 	end := fv.execBlock(body, x.Body.List)
 	fv.ctx = fv.ctx[:len(fv.ctx)-1]
 	for k, end := range append([]*State{end}, lc.continues...) {
@@ -1119,7 +1128,7 @@ func (fv *FV) execRange(st *State, x *ast.RangeStmt, label string) *State {
 		if keyObj != nil {
 			end.vars[keyObj] = next
 		}
-		fv.ghostAt(end, fmt.Sprintf("loop %d end", ord), x.Pos())
+		fv.ghostAt(end, fmt.Sprintf("loop %d end", ord), x.Body.Lbrace+1)
 		fv.obligeSat(end, fmt.Sprintf("vacuity.loop%d.%s", ord, phase), "the end of the loop body is reachable under everything assumed on the way")
 		fv.checkInvariants(end, ls, ord, phase, x.Pos(), scopePos)
 	}
